@@ -179,6 +179,46 @@ def run(repo, rep, tier):
             rep.finding("R11.2", red, r0.stmt, f"__reduce__ returns `{callee}`, which is not a module-level function of util.py "
                         f"(not picklable by reference)", stmt=f"reduce target {callee}")
         r2.ob(ok, f"__reduce__ ({kind}) -> {callee} restores {sorted(init_attrs)}")
+    # ---------------- R11.2 (namespaces): a rebuilt function gets a namespace of its own; the module's globals() are never written
+    nchecked = 0
+    for fn in um.functions.values():
+        aliases = set()
+        for n in walk_local_stmt(fn.node):
+            if isinstance(n, ast.Assign) and isinstance(n.value, ast.Call) and isinstance(n.value.func, ast.Name) and n.value.func.id == "globals" \
+                    and not n.value.args:
+                for t in n.targets:
+                    if isinstance(t, ast.Name):
+                        aliases.add(t.id)
+        for n in walk_local_stmt(fn.node):
+            hit = None
+            if isinstance(n, ast.Call) and isinstance(n.func, ast.Attribute) and n.func.attr in ("update", "setdefault", "pop", "clear", "popitem", "__setitem__"):
+                b = n.func.value
+                if (isinstance(b, ast.Name) and b.id in aliases) or (isinstance(b, ast.Call) and isinstance(b.func, ast.Name) and b.func.id == "globals"):
+                    hit = n
+            if isinstance(n, (ast.Assign, ast.AugAssign, ast.Delete)):
+                for t in (n.targets if not isinstance(n, ast.AugAssign) else [n.target]):
+                    if isinstance(t, ast.Subscript):
+                        b = t.value
+                        if (isinstance(b, ast.Name) and b.id in aliases) or (isinstance(b, ast.Call) and isinstance(b.func, ast.Name) and b.func.id == "globals"):
+                            hit = n
+            if isinstance(n, ast.Call) and ast.unparse(n.func).endswith("FunctionType") and len(n.args) >= 2:
+                nchecked += 1
+                gexp = n.args[1]
+                shared = (isinstance(gexp, ast.Name) and gexp.id in aliases) or (isinstance(gexp, ast.Call) and isinstance(gexp.func, ast.Name)
+                                                                                 and gexp.func.id == "globals")
+                r2.ob(not shared, f"{fn.name}: FunctionType namespace `{ast.unparse(gexp)[:40]}`")
+                if shared:
+                    rep.finding("R11.2", fn, n, f"the rebuilt function runs in the module's own globals() (`{ast.unparse(gexp)}`) instead of a fresh copy "
+                                f"with its captured references: every unpickled function shares one namespace, so the globals captured for "
+                                f"one overwrite those of another and the clones compute different values after further fills",
+                                stmt="FunctionType on shared globals()")
+            if hit is not None:
+                r2.ob(False)
+                rep.finding("R11.2", fn, hit, f"`{norm(hit)[:70]}` writes into the module's globals(): the names captured for one unpickled function "
+                            f"leak into every other function rebuilt in this process (and into histogrammar.util itself)",
+                            stmt=f"globals() written: {norm(hit)[:50]}")
+    if nchecked == 0:
+        raise AnalysisError("R11.2: no types.FunctionType(...) call found in histogrammar.util (deserializeFunction expected)")
     # ---------------- R11.3
     bad, checked = unresolved_self_loads(repo, classes={"UserFcn", "CachedFcn", "FillMethod", "PlotMethod"})
     for _ in range(checked - len(bad)):
